@@ -7,7 +7,8 @@ d = props[pid]
 earlier = []
 for p in sorted(glob.glob('/verif/seeded/%s-*/meta.json' % pid)):
     m = json.load(open(p))
-    earlier.append('(%s) %s' % (m['id'], m['needs_to_manifest_and_notes'].split('\n')[0][:240]))
+    txt = ' '.join(l.strip() for l in m['needs_to_manifest_and_notes'].split('\n') if l.strip() and not l.strip().upper().startswith('SEED '))
+    earlier.append('(%s) %s' % (m['id'], txt[:300]))
 wt = '/tmp/wt/%s-%s' % (pid, n)
 t = f'''You are helping evaluate a verification effort for the Go project openkruise/rollouts (a Kubernetes controller for canary / blue-green / batch releases). Your job: produce ONE realistic code change (the kind of slip a maintainer could make in an ordinary refactor or feature patch) that BREAKS the semantic property below while the project still compiles and its existing unit tests still pass.
 
